@@ -24,14 +24,15 @@ LEAN_MODULES = ["LunaVerif.Props.C09Spec", "LunaVerif.Lemmas.C09Stage", "LunaVer
                 "LunaVerif.Lemmas.C09Rom", "LunaVerif.Lemmas.C09RomLookup", "LunaVerif.Lemmas.C09RomCorrect",
                 "LunaVerif.Props.C09", "LunaVerif.Lemmas.C09Mux", "LunaVerif.Props.C09Mux",
                 "LunaVerif.Lemmas.C09Seq", "LunaVerif.Lemmas.C09BlockIdle", "LunaVerif.Lemmas.C09DistIdle",
-                "LunaVerif.Lemmas.C09MuxIdle", "LunaVerif.Props.C09Seq"]
+                "LunaVerif.Lemmas.C09MuxIdle", "LunaVerif.Props.C09Seq", "LunaVerif.Props.C09DataStage"]
 DRIVER = "Driver/C09.lean"
 REQUIRED_THEOREMS = ["datastage_exact", "dataStage_concat", "dataStage_packet_le", "rom_lookup_correct",
                      "block_packet_exact", "dist_packet_exact", "stall_without_data_when_absent_block",
                      "stall_without_data_when_absent_dist", "dist_runtime_packet_exact", "mux_packet_exact",
                      "mux_stall_iff_absent", "block_returns_idle", "dist_returns_quiescent",
                      "dist_runtime_returns_quiescent", "mux_returns_idle", "block_requests_exact",
-                     "dist_requests_exact", "mux_requests_exact"]
+                     "dist_requests_exact", "mux_requests_exact", "block_datastage_exact",
+                     "dist_datastage_exact", "mux_datastage_exact"]
 RULE = ("cases = (handler class in {block, distributed, mux(block+distributed runtime)}, max packet size in "
         "{8,16,32,64}, random descriptor collection of 1..10 descriptors with lengths 1..300 weighted to "
         "packet-size multiples, types 0..15 and a few vendor types, sparse/consecutive indexes, string descriptors, "
@@ -57,7 +58,8 @@ PARTIAL = ("All three items of the former PARTIAL are theorems now: rom_lookup_c
            "(Rom.layout coll) coll, arbitrary collections); mux_packet_exact (block handler for the fixed + distributed "
            "handler for the runtime descriptors through the mux model, from any stall-latch values; STALL iff neither "
            "owns the wValue); return-to-idle (block_returns_idle / dist_returns_quiescent / mux_returns_idle) and "
-           "sequences of requests (block/dist/mux_requests_exact).  Remaining, co-simulation + monitor only: runtime "
+           "sequences of requests (block/dist/mux_requests_exact), composed with dataStage into the whole data stage "
+           "on each handler model (block/dist/mux_datastage_exact).  Remaining, co-simulation + monitor only: runtime "
            "generators other than the repo's USBDescriptorStreamGenerator over a byte string (and for those, requests "
            "at start_position == length, excluded by ASSUMPTIONS); the composition with the real "
            "StandardRequestHandler / USBDataPacketGenerator (the theorems take the handler-port view: start pulse, "
